@@ -84,3 +84,97 @@ func VerifC18_P1_W1()     { verifC18(1, 1, false) }
 func VerifC18_P1_W2seq()  { verifC18(1, 2, false) }
 func VerifC18_P1_W2conc() { verifC18(1, 2, true) }
 func VerifC18_P2_W1()     { verifC18(2, 1, false) }
+
+// ---- message flows: a throw event of a running member process instantiates the waiting target process at the referenced
+// start event, exactly once per throw, and the set completes only when the instantiated processes have completed too.
+// Real ProcessSet.run (throwMessage arm, resolveWaitingProcessAndEvent, NewProcess for the target) and tracerProcess;
+// Process.StartWith of the instantiated process is replaced by a stand-in that counts the instantiation and emits the
+// instance's traces ending in CeaseFlowTrace at its own pace.
+var verifInstantiated int64
+
+func verifProcStartWith(p *Process, ctx context.Context, element schema.FlowNodeInterface) error {
+	verifAdd(&verifInstantiated, 1)
+	if verifGet(&verifInstantiated) >= 2 {
+		// a later instance completes at once ...
+		p.tracer.Send(VisitTrace{})
+		p.tracer.Send(CeaseFlowTrace{Process: p.element})
+		return nil
+	}
+	go func() {
+		// ... the first one takes its time
+		verifYield()
+		p.tracer.Send(VisitTrace{})
+		verifYield()
+		p.tracer.Send(CeaseFlowTrace{Process: p.element})
+	}()
+	return nil
+}
+
+var verifThrows int
+
+// member process stand-in for the message-flow scenarios: throws verifThrows times, then completes
+func verifProcStartAllThrowing(p *Process, ctx context.Context) error {
+	go func() {
+		te := schema.DefaultThrowEvent()
+		tid := "throw1"
+		te.SetId(&tid)
+		verifYield()
+		for i := 0; i < verifThrows; i++ {
+			p.tracer.Send(FlowTrace{Source: &te})
+		}
+		p.tracer.Send(CeaseFlowTrace{Process: p.element})
+	}()
+	return nil
+}
+
+func verifC18Message(throws int) {
+	verifThrows = throws
+	ctx := context.Background()
+	defs, procs := verifC18Defs(1)
+	// a waiting process with a start event referenced by a message flow from the member's throw event
+	wb := verifNewB("waiting")
+	wb.start("wstart", "wf")
+	wb.flow("wf", "wstart", "wend", false)
+	wb.end("wend", "wf")
+	defs.ProcessField = append(defs.ProcessField, wb.p)
+	waiting := &defs.ProcessField[1]
+	procs = []*schema.Process{&defs.ProcessField[0]}
+	col := schema.DefaultCollaboration()
+	mf := schema.DefaultMessageFlow()
+	mf.SourceRefField = "throw1"
+	mf.TargetRefField = "wstart"
+	col.MessageFlowField = append(col.MessageFlowField, mf)
+	defs.CollaborationField = append(defs.CollaborationField, col)
+	var ceaseSet, ceaseFlow int64
+	tracer := verifMkTracer(ctx, func(tr tracing.ITrace) {
+		switch tracing.Unwrap(tr).(type) {
+		case CeaseProcessSetTrace:
+			verifAdd(&ceaseSet, 1)
+		case CeaseFlowTrace:
+			verifAdd(&ceaseFlow, 1)
+		}
+	})
+	ps, err := NewProcessSet(procs, []*schema.Process{waiting}, defs, WithContext(ctx), WithTracer(tracer), WithIdGenerator(&verifIdGen{}))
+	verifAssert(err == nil, "NewProcessSet succeeds")
+	if err != nil {
+		return
+	}
+	err = ps.StartAll(ctx)
+	verifAssert(err == nil, "ProcessSet.StartAll succeeds")
+	verifQuiesce() // every throw has been handled, every process has completed
+	verifAssert(verifGet(&verifInstantiated) == int64(throws), "a message flow instantiates the waiting target process exactly once per throw")
+	var done int64
+	go func() {
+		ok := ps.WaitUntilComplete(ctx)
+		verifAssert(ok, "WaitUntilComplete with a live context returns true")
+		verifAssert(verifGet(&ceaseFlow) == int64(1+throws), "WaitUntilComplete returns true only when every started process has completed")
+		verifAdd(&done, 1)
+	}()
+	verifQuiesce()
+	verifReach("quiescent")
+	verifAssert(verifGet(&done) == 1, "every WaitUntilComplete call returns once all started processes have completed, however early they finish")
+	verifAssert(verifGet(&ceaseSet) == 1, "exactly one cease-process-set trace is emitted")
+}
+
+func VerifC18_Message_1() { verifC18Message(1) }
+func VerifC18_Message_2() { verifC18Message(2) }
